@@ -658,6 +658,7 @@ template <class T> Verdict chk_acc(const J& rec) {
   Accumulator<T> a(init);
   Q V = toQ(init); M S = mp::abs(toM(init));   // exact value; sum of magnitudes (for the tolerance only)
   L P = 1;                       // product of the real multipliers since the last assignment
+  int nmul = 0;                  // number of real multiplications: each adds a rounding error of the product to the low word
   int nops = 0, cancels = 0, nmut = 0;
   auto tolM = [&]() { return M(M(ACC_C * (nops + 2)) * eps2 * S + uf * (nops + 2)); };
   // value held = leading part + what is left after removing it, three times (each removal is an
@@ -701,7 +702,7 @@ template <class T> Verdict chk_acc(const J& rec) {
       a *= (int)n; V *= Q(n); S *= M(an);
     } else if (o == "mulr") {
       if (y == 0) { v.skip("multiplier 0 not modelled"); return v; }
-      a *= y; V *= toQ(y); S *= mp::abs(toM(y)); P *= fabsl((L)y);
+      a *= y; V *= toQ(y); S *= mp::abs(toM(y)); P *= fabsl((L)y); ++nmul;
       if (!(P <= ldexpl(1, EP) && P >= ldexpl(1, -EP))) { v.skip("product of multipliers outside the modelled range"); return v; }
     } else if (o == "rem") {
       if (y == 0) { v.skip("modulus 0"); return v; }
@@ -716,7 +717,9 @@ template <class T> Verdict chk_acc(const J& rec) {
       // not renormalised after a cancellation, so the low word (at most epsilon sum|terms|) can carry
       // the value beyond the boundary by that much (e.g. 8e27 - 200 - 8e27(1+eps), remainder 360)
       (void)Vb;
-      M lim = mp::abs(toM(y)) * (M(1) / 2 + eps1) + S * eps1 + tolM();
+      // (each real multiplication leaves up to eps |product| in the low word as well: seed 2 found a sequence of four
+      //  multiplications of 9e21 followed by remainder(360) whose low word was 1.3 x eps sum|terms|)
+      M lim = mp::abs(toM(y)) * (M(1) / 2 + eps1) + S * eps1 * (1 + nmul) + tolM();
       v.that(mp::abs(toM(hi)) <= lim, "Accumulator::remainder(y): result outside [-y/2, y/2] (+ low word)");
       v.tag("rem");
     } else if (o == "set") {
